@@ -667,4 +667,6 @@ def main_c16(tier, seed):
     rep.samples = [dict((k, v) for k, v in d.items() if k not in ("X", "D")) for d in descs[:3]]
     rep.rule = "labeled sample sets as in C12; KNN-supervised with max_k 1..5 on a train/validation split, unsupervised with min_k 1..2 <= max_k <= 5; non-trivial = the criterion takes at least two different values over the candidates"
     rep.assumptions = ASSUME
+    import knnfull          # correspondence stream "whole fit": the complete fit() of both models against Model/KnnLearn.v
+    knnfull.whole_fit_stream(rep, tier, seed)
     return rep.finish()
